@@ -54,8 +54,10 @@ static std::string handle(const std::vector<std::string> &t)
   const bool collector = kind.size() == 2 && kind[1] == '+';
   if (collector) kind.pop_back();
   if (nth == 0 || nth > 4 || names.size() != nth || adds == 0 || adds > 5 || (kind != "c" && kind != "u" && kind != "h")) return "bad-op";
+  // lower case a-c: the instrument "i_<letter>" on the shared meter "m"; upper case A-C: the instrument "i_<letter><i>" on a
+  // meter "m<i>" of the thread's own that it obtains itself (MeterProvider::GetMeter racing the others and the collector)
   for (char c : names)
-    if (c < 'a' || c > 'c') return "bad-op";
+    if (!((c >= 'a' && c <= 'c') || (c >= 'A' && c <= 'C'))) return "bad-op";
   std::vector<int> acts;
   for (size_t i = 1; i < ops.size(); i++)
   {
@@ -71,25 +73,33 @@ static std::string handle(const std::vector<std::string> &t)
   provider->AddMetricReader(reader);
   auto meter = provider->GetMeter("m", "1", "");
   detsched::name_object(&static_cast<sm::Meter *>(meter.get())->storage_lock_, "sl");
-  std::map<char, long long> recorded;
+  std::map<std::string, long long> recorded;
+  auto key_of = [&](size_t i) { return names[i] >= 'a' ? std::string(1, names[i]) : std::string(1, names[i]) + std::to_string(i); };
+  for (size_t i = 0; i < nth; i++) recorded[key_of(i)] = 0;
   for (size_t i = 0; i < nth; i++)
   {
     detsched::spawn([&, i] {
       detsched::point("begin", nullptr);
-      const std::string nm = std::string("i_") + names[i];
-      detsched::note(std::string("create ") + names[i]);
+      const std::string nm = std::string("i_") + key_of(i);
+      nostd::shared_ptr<am::Meter> mine = meter;
+      if (names[i] < 'a')
+      {
+        detsched::note("getmeter");
+        mine = provider->GetMeter("m" + std::to_string(i), "1", "");
+      }
+      detsched::note(std::string("create ") + key_of(i));
       nostd::unique_ptr<am::Counter<uint64_t>> c;
       nostd::unique_ptr<am::UpDownCounter<int64_t>> u;
       nostd::unique_ptr<am::Histogram<uint64_t>> h;
-      if (kind == "c") c = meter->CreateUInt64Counter(nm);
-      else if (kind == "u") u = meter->CreateInt64UpDownCounter(nm);
-      else h = meter->CreateUInt64Histogram(nm);
+      if (kind == "c") c = mine->CreateUInt64Counter(nm);
+      else if (kind == "u") u = mine->CreateInt64UpDownCounter(nm);
+      else h = mine->CreateUInt64Histogram(nm);
       detsched::note("created");
       for (unsigned long j = 0; j < adds; j++)
       {
         detsched::point("begin", nullptr);
         const long long v = 1 + static_cast<long long>(i);
-        recorded[names[i]] += v;
+        recorded[key_of(i)] += v;
         detsched::note("add " + std::to_string(v));
         if (c) c->Add(static_cast<uint64_t>(v));
         else if (u) u->Add(v);
@@ -128,21 +138,22 @@ static std::string handle(const std::vector<std::string> &t)
     _exit(77);
   }
   // final, unmanaged: the reader collects; per instrument name the total it is given
-  std::map<char, long long> got;
-  std::map<char, int> streams;
+  std::map<std::string, long long> got;
+  std::map<std::string, int> streams;
   reader->Collect([&](sm::ResourceMetrics &rm) {
     for (auto &sc : rm.scope_metric_data_)
       for (auto &md : sc.metric_data_)
       {
         const std::string &n = md.instrument_descriptor.name_;
-        if (n.size() != 3) continue;
-        streams[n[2]]++;
+        if (n.size() < 3 || n.compare(0, 2, "i_") != 0) continue;
+        const std::string key = n.substr(2);
+        streams[key]++;
         for (auto &p : md.point_data_attr_)
         {
           if (nostd::holds_alternative<sm::SumPointData>(p.point_data))
-            got[n[2]] += nostd::get<int64_t>(nostd::get<sm::SumPointData>(p.point_data).value_);
+            got[key] += nostd::get<int64_t>(nostd::get<sm::SumPointData>(p.point_data).value_);
           else if (nostd::holds_alternative<sm::HistogramPointData>(p.point_data))
-            got[n[2]] += nostd::get<int64_t>(nostd::get<sm::HistogramPointData>(p.point_data).sum_);
+            got[key] += nostd::get<int64_t>(nostd::get<sm::HistogramPointData>(p.point_data).sum_);
         }
       }
     return true;
